@@ -7,10 +7,12 @@ MC_UpDownAuth_gen (backbones + verdict of every message of the lattice in
 the state at the end of each backbone), UpDownAuthTrace (validation of what
 the real CaManager::rfc6492 / RepositoryManager::rfc8181 did).
 """
+import concurrent.futures
 import copy
 import json
 import os
 import re
+import time
 
 import vlib
 
@@ -20,12 +22,12 @@ CRATE = "harness-auth"
 
 MUTANTS = {
     # model mutant -> property that must catch it
-    "skipsig": "RefusedUnchanged",
-    "anychild": "RefusedUnchanged",
-    "notamper": "RefusedUnchanged",
-    "stalekey": "ReplySignedByCurrentServerKey",
-    "nojail": "EffectsWithinSender",
-    "otherscert": "WithinScope",
+    "skipsig": ("RefusedUnchanged",),
+    "anychild": ("RefusedUnchanged",),
+    "notamper": ("RefusedUnchanged",),
+    "stalekey": ("ReplySignedByCurrentServerKey",),
+    "nojail": ("EffectsWithinSender", "WithinScope"),
+    "otherscert": ("EffectsWithinSender", "KeysExclusive"),
 }
 
 
@@ -34,13 +36,50 @@ MUTANTS = {
 # --------------------------------------------------------------------------
 
 def model_runs(chk, tier):
-    cfgs = [("MC_UpDownAuth.cfg", 10, 600)]
+    """Exhaustive model check plus the model mutants (anti-vacuity of the
+    model checked properties), all TLC runs side by side (12 workers)."""
+    jobs = [("main", "MC_UpDownAuth.cfg", 5, 900, False),
+            ("cov", "MC_UpDownAuth_cov.cfg", 1, 900, True)]
     if tier == "thorough":
-        cfgs.append(("MC_UpDownAuth_big.cfg", 12, 1500))
-    for cfg, workers, timeout in cfgs:
-        res = vlib.run_tlc("MC_UpDownAuth", cfg, chk.out, workers=workers,
-                           timeout=timeout, coverage=(cfg == cfgs[0][0]))
+        jobs = [("main", "MC_UpDownAuth.cfg", 2, 900, False),
+                ("cov", "MC_UpDownAuth_cov.cfg", 1, 900, True),
+                ("big", "MC_UpDownAuth_big.cfg", 6, 2400, False)]
+    for mutant in MUTANTS:
+        cfg = f"MC_UpDownAuth_mut_{mutant}.cfg"
+        with open(os.path.join(vlib.SPEC, "MC_UpDownAuth.cfg")) as f:
+            text = f.read().replace('Mutant = "none"',
+                                    f'Mutant = "{mutant}"')
+        path = os.path.join(chk.out, cfg)
+        with open(path, "w") as f:
+            f.write(text)
+        jobs.append((mutant, os.path.relpath(path, vlib.SPEC), 1 if
+                     tier == "quick" else 0.5, 900, False))
+
+    def run_job(job):
+        name, cfg, workers, timeout, coverage = job
+        return job, vlib.run_tlc(
+            "MC_UpDownAuth", cfg, os.path.join(chk.out, "tlc_" + name),
+            workers=max(1, int(workers)), timeout=timeout,
+            coverage=coverage)
+
+    caught = {}
+    # at most 12 TLC workers at a time
+    with concurrent.futures.ThreadPoolExecutor(
+            max_workers=8 if tier == "quick" else 6) as pool:
+        results = list(pool.map(run_job, jobs))
+    for (name, cfg, _, _, _), res in results:
+        if name in MUTANTS:
+            if res.violated not in MUTANTS[name]:
+                print(res.out[-3000:])
+                raise vlib.ToolError(
+                    f"model mutant {name} was expected to violate "
+                    f"{MUTANTS[name]}, TLC reported {res.violated}")
+            caught[name] = res.violated
+            continue
         chk.add_tlc(cfg, res)
+        for action, taken in action_coverage(res.out).items():
+            chk.cov["actions_covered"][action] = max(
+                chk.cov["actions_covered"].get(action, 0), taken)
         if res.violated or res.errors:
             print(res.counterexample()[:3000])
             raise vlib.ToolError(
@@ -49,38 +88,25 @@ def model_runs(chk, tier):
         vlib.log(f"TLC {cfg}: {res.distinct} distinct states, "
                  f"{res.generated} transitions checked, no violation")
     needed = ["MCPerform", "MCDecline", "MCRefuse", "MCChildId",
-              "MCServerId", "MCPubReReg"]
+              "MCServerId", "MCPubReReg", "MCSuspend"]
     missing = [a for a in needed
                if chk.cov["actions_covered"].get(a, 0) == 0]
     if missing:
         raise vlib.ToolError(f"actions never taken in the model: {missing}")
-    # anti-vacuity of the model checked properties: every model mutant
-    # must violate the property that is meant to exclude it
-    caught = {}
-    for mutant, prop in MUTANTS.items():
-        cfg = f"MC_UpDownAuth_mut_{mutant}.cfg"
-        with open(os.path.join(vlib.SPEC, "MC_UpDownAuth.cfg")) as f:
-            text = f.read().replace('Mutant = "none"',
-                                    f'Mutant = "{mutant}"')
-        path = os.path.join(chk.out, cfg)
-        with open(path, "w") as f:
-            f.write(text)
-        res = run_tlc_cfg_path("MC_UpDownAuth", path, chk.out, workers=6,
-                               timeout=600)
-        if res.violated != prop:
-            print(res.out[-3000:])
-            raise vlib.ToolError(
-                f"model mutant {mutant} was expected to violate {prop}, "
-                f"TLC reported {res.violated}")
-        caught[mutant] = prop
     chk.cov["model_mutants_caught"] = caught
 
 
-def run_tlc_cfg_path(module, cfg_path, workdir, **kw):
-    """run_tlc with a config file outside spec/ (generated)."""
-    # vlib.run_tlc takes a name relative to spec/
-    rel = os.path.relpath(cfg_path, vlib.SPEC)
-    return vlib.run_tlc(module, rel, workdir, **kw)
+COVERAGE_RE = re.compile(
+    r"^<(\w+) line \d+, col \d+ to line \d+, col \d+ of module \w+"
+    r"(?: \([\d ]+\))?>: (\d+):(\d+)", re.M)
+
+
+def action_coverage(out):
+    """Transitions generated per named action (last report wins)."""
+    res = {}
+    for m in COVERAGE_RE.finditer(out):
+        res[m.group(1)] = int(m.group(3))
+    return res
 
 
 # --------------------------------------------------------------------------
@@ -136,7 +162,16 @@ def build_behaviours(chk, universe, gens, tier):
         shallow = [i for i in order if len(gens[i]["actions"]) <= 1]
         deep = [i for i in order if len(gens[i]["actions"]) > 1]
         rng.shuffle(deep)
-        order = shallow + deep[:30]
+        # make sure every administrative action occurs in some backbone
+        must = []
+        for kind in ("Suspend", "ChildId", "ServerId", "PubReReg"):
+            for i in deep:
+                if any(a["a"] == kind for a in gens[i]["actions"]) \
+                        and i not in must:
+                    must.append(i)
+                    break
+        rest = [i for i in deep if i not in must]
+        order = shallow + must + rest[:10 - len(must)]
     for gi in order:
         gen = gens[gi]
         flags = gen["valid"]
@@ -151,7 +186,8 @@ def build_behaviours(chk, universe, gens, tier):
                 # tampered variants only of messages that would be valid
                 continue
             refuse.append(i)
-        probes = [dict(universe[i], a="Req") for i in valid_idx]
+        probes = [dict(universe[i], a="Req") for i in valid_idx
+                  if not foreign_issue(universe[i])]
         rng.shuffle(probes)
         if tier == "quick":
             probes = probes[:60]
@@ -164,6 +200,41 @@ def build_behaviours(chk, universe, gens, tier):
         expected[bid] = {"refuse": len(refuse), "probes": len(probes),
                          "backbone": len(gen["actions"])}
     return behaviours, expected, index
+
+
+OWNER = {"a1": "c1", "a2": "c1", "b1": "c2"}
+
+
+def foreign_issue(m):
+    """An issuance request for a certificate key that the model gives to
+    the other child of P. These run in dedicated behaviours (see
+    foreign_key_behaviours) so that what krill does with them cannot mask
+    anything else."""
+    return (m["p"] == "ud" and m["kind"] == "issue" and m["tgt"] == "P"
+            and m["snd"] in ("c1", "c2") and OWNER[m["ckey"]] != m["snd"])
+
+
+def foreign_key_behaviours(chk, first_id):
+    """A child asks for a certificate for a key that the other child
+    already holds a certificate for (it proves possession: the harness
+    holds all private keys), and for the revocation of that key."""
+    base = {"p": "ud", "rcp": "P", "tgt": "P", "lim": ["none"],
+            "uri": "-", "val": "-", "tam": "none"}
+
+    def req(key, snd, kind, ckey, lim=("none",)):
+        return dict(base, a="Req", key=key, snd=snd, kind=kind, ckey=ckey,
+                    lim=list(lim))
+
+    setup = [req("k1", "c1", "issue", "a1"), req("k2", "c2", "issue", "b1")]
+    cases = [
+        [req("k1", "c1", "issue", "b1")],
+        [req("k1", "c1", "issue", "b1", ["r1"])],
+        [req("k2", "c2", "issue", "a1")],
+        [req("k1", "c1", "revoke", "b1"), req("k2", "c2", "revoke", "a1"),
+         req("k2", "c2", "list", "-"), req("k1", "c1", "list", "-")],
+    ]
+    return [{"id": first_id + k, "keyoff": (chk.seed * 131 + 300) % 1400,
+             "actions": setup + case} for k, case in enumerate(cases)]
 
 
 def bitflip_behaviours(chk, tier, first_id):
@@ -208,34 +279,58 @@ def bitflip_behaviours(chk, tier, first_id):
 # execution and validation
 # --------------------------------------------------------------------------
 
-def key_relation(ev):
-    """Stable description of how a request relates to the registered key
+def key_relation(ev, pre=None):
+    """Stable description of how a request relates to the state before it
     (for violation signatures)."""
-    return f"{ev.get('p')}:{ev.get('kind')}:tam={ev.get('tam')}"
+    res = f"{ev.get('p')}:{ev.get('kind')}:tam={ev.get('tam')}"
+    if not pre:
+        return res
+    srv = ev.get("tgt") if ev.get("p") == "ud" else "R"
+    reg = pre.get("reg", {}).get(srv, {})
+    key, snd = ev.get("key"), ev.get("snd")
+    if reg.get(snd) == key:
+        rel = "registered-key"
+    elif key in reg.values():
+        rel = "other-senders-key"
+    elif key in ("sP", "sO"):
+        rel = "servers-own-key"
+    elif key == "kr":
+        rel = "unregistered-key"
+    else:
+        rel = "replaced-or-foreign-key"
+    res += f":{rel}"
+    if ev.get("p") == "ud":
+        if ev.get("rcp") != ev.get("tgt"):
+            res += ":other-recipient"
+        if ev.get("kind") in ("issue", "revoke"):
+            holders = [c for c, certs in pre.get("iss", {}).get(
+                srv, {}).items() if any(x[0] == ev.get("ckey")
+                                        for x in certs)]
+            if snd in holders:
+                res += ":own-cert-key"
+            elif holders:
+                res += ":cert-key-of-other-child"
+            else:
+                res += ":new-cert-key"
+    elif ev.get("kind") in ("publish", "withdraw"):
+        uri = ev.get("uri", "")
+        res += ":own-base" if uri.startswith(f"{snd}/") else ":foreign-uri"
+    return res
+
+
+def pre_state(rej):
+    seg, line = rej["segment"], rej["line"]
+    if 0 < line <= len(seg) - 1:
+        return seg[line - 1].get("st")
+    return None
 
 
 def signature(rej):
     ev = rej["event"] or {}
     if ev.get("ev") == "Req":
         return (f"{rej['violated'] or 'no-action-matches'}:"
-                f"{key_relation(ev)}:{ev.get('verdict')}")
+                f"{key_relation(ev, pre_state(rej))}:{ev.get('verdict')}")
     return f"{rej['violated'] or 'no-action-matches'}:{ev.get('ev')}"
-
-
-def behaviour_of(segment, universe_index):
-    acts = []
-    for ev in segment[1:]:
-        if ev.get("vector"):
-            continue        # re-created by the Vectors action
-        a = {k: v for k, v in ev.items() if k in (
-            "p", "key", "snd", "rcp", "tgt", "kind", "ckey", "lim", "uri",
-            "val", "tam", "srv", "c", "idx", "m", "n", "seed", "name")}
-        a["a"] = ev["ev"]
-        if ev["ev"] == "Vectors":
-            a["idx"] = ev.get("idx_in", [])
-        acts.append(a)
-    return {"id": segment[0].get("behaviour", 0), "actions": acts,
-            "keyoff": segment[0].get("keyoff", 0)}
 
 
 def run_and_validate(chk, behaviours, universe, tag, replay_of=None):
@@ -243,9 +338,13 @@ def run_and_validate(chk, behaviours, universe, tag, replay_of=None):
     with open(upath, "w") as f:
         json.dump(universe, f)
     by_id = {b["id"]: b for b in behaviours}
+    t_h = time.time()
     trace = vlib.run_harness(
         "run-updown", behaviours, f"{chk.out}/{tag}", crate=CRATE,
-        extra=["--universe", upath], timeout=3000)
+        extra=["--universe", upath], timeout=3000,
+        shards=min(14, len(behaviours)))
+    vlib.log(f"harness executed {len(behaviours)} behaviours in "
+             f"{time.time() - t_h:.0f}s, {len(trace)} trace lines")
     segs = vlib.split_behaviours(trace)
     # validate in chunks (TLC keeps the whole trace in memory)
     validated = 0
@@ -276,7 +375,8 @@ def run_and_validate(chk, behaviours, universe, tag, replay_of=None):
         chk.report(
             signature(rej),
             f"real server leaves the specification at step {rej['line']} "
-            f"of behaviour {bid} ({ev.get('ev')} {key_relation(ev)}): "
+            f"of behaviour {bid} ({ev.get('ev')} "
+            f"{key_relation(ev, pre_state(rej))}): "
             f"violated={rej['violated']} verdict={ev.get('verdict')} "
             f"chg={ev.get('chg')} rk={ev.get('rk')} "
             f"info={ev.get('info')}",
@@ -304,11 +404,11 @@ def account(chk, segs, expected):
                     raise vlib.ToolError(
                         f"behaviour {bid}: {ev.get('n')} vectors executed, "
                         f"{exp['refuse']} generated")
-                if ev["refused"] + ev["emitted"] + ev["skipped"] != ev["n"]:
+                if ev["refused"] + ev["deviating"] + ev["skipped"] != ev["n"]:
                     raise vlib.ToolError(
                         f"behaviour {bid}: vector counts do not add up")
                 stats["vectors_refused_as_specified"] += ev["refused"]
-                stats["vectors_deviating"] += ev["emitted"]
+                stats["vectors_deviating"] += ev["deviating"]
                 stats["vectors_skipped"] += ev["skipped"]
                 chk.cov["evaluations"] += ev["n"]
             elif e == "Req":
@@ -326,7 +426,7 @@ def account(chk, segs, expected):
                         stats["recipient_mismatch_accepted"] += 1
                 elif not ev.get("vector"):
                     stats["requests_declined"] += 1
-            elif e in ("ChildId", "ServerId", "PubReReg"):
+            elif e in ("ChildId", "ServerId", "PubReReg", "Suspend"):
                 stats["identity_updates"][e] = \
                     stats["identity_updates"].get(e, 0) + 1
                 state_id += 1
@@ -355,9 +455,9 @@ def require_exercised(stats, tier):
         raise vlib.ToolError(
             f"honest requests of kinds {missing} were never accepted by the "
             f"real code: the property was not exercised")
-    for k in ("ChildId", "ServerId", "PubReReg"):
+    for k in ("ChildId", "ServerId", "PubReReg", "Suspend"):
         if stats["identity_updates"].get(k, 0) == 0:
-            raise vlib.ToolError(f"identity update {k} never executed")
+            raise vlib.ToolError(f"administrative action {k} never executed")
     if stats["vectors_refused_as_specified"] < 1000:
         raise vlib.ToolError("too few refusal vectors executed")
     if stats["vectors_skipped"] > 0:
@@ -443,22 +543,30 @@ def run(tier, seed):
     chk = vlib.Check(PID, LEVEL, tier, seed)
     chk.assumptions = ASSUMPTIONS
     model_runs(chk, tier)
+    vlib.log(f"model phase done at {time.time() - chk.t0:.0f}s")
     universe, gens = generate(chk, tier)
     vlib.log(f"universe {len(universe)} messages, {len(gens)} distinct "
              f"states with a backbone")
     behaviours, expected, _ = build_behaviours(chk, universe, gens, tier)
     flips = bitflip_behaviours(chk, tier, len(behaviours))
+    flips += foreign_key_behaviours(chk, len(behaviours) + len(flips))
     for b in behaviours[1:3]:
         chk.sample({"backbone": b["actions"][:expected[b["id"]]["backbone"]],
                     "vectors": expected[b["id"]]["refuse"],
                     "valid_probes": expected[b["id"]]["probes"]})
     trace, segs, rej = run_and_validate(
         chk, behaviours + flips, universe, "lattice")
+    vlib.log(f"harness + validation done at {time.time() - chk.t0:.0f}s")
     stats = account(chk, segs, expected)
     vlib.log(f"C12 stats: {json.dumps(stats)[:600]}")
-    if not rej:
+    try:
         require_exercised(stats, tier)
         self_test(chk, segs)
+    except vlib.ToolError as e:
+        # with violations on the table they are the result of the run
+        if not chk.violations:
+            raise
+        vlib.log(f"anti-vacuity step not completed after violations: {e}")
     chk.cov["exhaustive"] = True
     chk.cov["bitflips"] = {
         "level": "exploration",
